@@ -369,7 +369,7 @@ def run_chunk(arg):
         for f in routines:
             A0 = make_input(A, dtype, order)
             Akeep = A0.copy()
-            st, o = call(getattr(bct, f), A0, t=5.0)
+            st, o = call(getattr(bct, f), A0, t=5.0, retry=10)   # a timeout is a verdict here: re-tried once with 10x the budget
             cnt('calls:' + f); cnt(st + ':' + f)
             if st == 'timeout':
                 cnt('timeouts'); continue
@@ -428,12 +428,9 @@ def run_chunk(arg):
             ms = ','.join(str(int(x)) for r in L for x in r) + ('' if den == 1 else ' den=%d' % den)
             if not mal:
                 lines.append('spec n=%d L=%s' % (n, ms)); meta.append(('spec', (L, den, dtype, order), (dist, sig, BC, EBC), None))
-            for f in routines:
-                # betweenness_wei is the BC component of the very same model loop as edge_betweenness_wei: one driver line serves both
-                if f in outs and not (f == 'betweenness_wei' and 'edge_betweenness_wei' in outs):
+            for f in routines:     # every routine has its own model line (betweenness_wei: `betweennessWei`, not a projection of the edge model)
+                if f in outs:
                     lines.append('%s n=%d L=%s' % (f, n, ms)); meta.append((f, (L, den, dtype, order), (dist, sig, BC, EBC), outs[f]))
-                    if f == 'edge_betweenness_wei' and 'betweenness_wei' in outs:
-                        meta[-1] = (f, (L, den, dtype, order), (dist, sig, BC, EBC), outs[f], outs['betweenness_wei'])
     if lean_ok and lines:
         try:
             res = run_driver('Between', lines)
@@ -445,21 +442,6 @@ def run_chunk(arg):
             n = len(L)
             R['corr'] += 1
             bad = None
-            if len(mt) == 5:   # the node routine betweenness_wei against the same model line
-                R['corr'] += 1
-                pw = mt[4]
-                try:
-                    kw = kv(o)
-                    if pw[0] == 'exc':
-                        okw = kw.get('error') == exc_kind(pw[1])
-                    else:
-                        okw = 'error' not in kw and vec_close(pw[2], fr_list(kw['bc']))
-                except Exception:
-                    okw = False
-                if not okw:
-                    R['corr_bad'] += 1
-                    if len(R['breaks']) < 3:
-                        R['breaks'].append(('model vs bct.betweenness_wei', {'L': L, 'den': den, 'dtype': dtype, 'order': order, 'model': o[:300], 'impl': pw[1] if pw[0] == 'exc' else pw[2]}))
             kvs = kv(o)
             try:
                 if op == 'spec':
@@ -547,7 +529,11 @@ def main():
         cases += enum_cases(4, True, 2) + enum_cases(4, True, 3, rs, 3000)
         cases += enum_cases(5, False, 2) + enum_cases(5, False, 3, rs, 1500)
         cases += structured() + random_cases(rs, 800) + rational_cases(rs, 1200, 'quick') + near_tie_cases(rs, 600) + malformed_cases(rs, 100)
-    csz = 900 if ck.tier == 'quick' else 2500
+    if not ck.replay:     # homogeneous chunks: seeded shuffle, then one chunk per worker in the quick tier
+        perm = np.random.RandomState(ck.seed + 12345).permutation(len(cases))
+        cases = [cases[i] for i in perm]
+    nproc = min(16, os.cpu_count() or 4)
+    csz = max(1, -(-len(cases) // nproc)) if ck.tier == 'quick' else 2500
     chunks = [(i, cases[i:i + csz], ok) for i in range(0, len(cases), csz)]
     # interleave cheap and expensive chunks a little: sort is not needed, pool.map balances with chunksize 1
     import multiprocessing as mp
